@@ -504,8 +504,19 @@ func (s *sim) opMissingNode() {
 	if len(cands) == 0 {
 		return
 	}
-	// prefer nodes of the current root: draw until one is reachable or tries run out
 	hole := []byte(cands[s.flt.Int(len(cands))])
+	if s.flt.Bool(3, 4) {
+		// mostly a node that is on the path of some key of the current content
+		// (old roots leave unreachable nodes behind on the disk)
+		ks := s.m.keys()
+		k := []byte(ks[s.flt.Int(len(ks))])
+		if blobs, err := s.proveKey(s.t.trieKey(k)); err == nil && len(blobs) > 0 {
+			h := crypto.Keccak256(blobs[s.flt.Int(len(blobs))])
+			if s.disk.MemDB.Has(h) {
+				hole = h
+			}
+		}
+	}
 	s.tracef("missing-node episode: %x.. of %d stored nodes", hole[:4], len(cands))
 	s.tdb = trie.NewDatabase(s.disk)
 	s.disk.hole, s.disk.hits = hole, 0
